@@ -202,6 +202,10 @@ func (r *Report) finish(verifDir, tier string, seed int64, start time.Time, p *P
 	sort.Slice(viols, func(i, j int) bool { return viols[i].Key < viols[j].Key })
 
 	replayDir := filepath.Join(verifDir, "evidence", "replay")
+	if evidencePath != "" {
+		// replay files live next to the evidence file (a scratch run keeps clear of /verif/evidence)
+		replayDir = filepath.Join(filepath.Dir(evidencePath), "replay")
+	}
 	os.MkdirAll(replayDir, 0o755)
 	// remove stale replay files of this property
 	if ents, err := os.ReadDir(replayDir); err == nil {
